@@ -1,3 +1,83 @@
-import GV.Model.Engine
+/-
+  Props/C09.lean — Receive-maximum and post-reconnect slow-start flow control are never exceeded.
+  About Model/Engine.lean: `dequeue_operation`, `does_operation_pass_receive_maximum_flow_control`,
+  `should_external_operations_be_slow_start_throttled` (protocol.rs).
+-/
+import GV.Proofs.EngineBasics
 namespace GV.Props.C09
+open GV
+
+def isQos12Publish (e : Engine) (id : Nat) : Bool :=
+  match (e.op? id).bind (fun o => publishQos o.packet) with
+  | some q => q != 0
+  | none => false
+
+/-- **Receive maximum gates the queues.**  An operation taken from the resubmit or the user queue that is a
+    QoS 1/2 publish is taken only while the number of unacknowledged publishes is below the server's Receive
+    Maximum. -/
+theorem dequeue_respects_receive_maximum (e : Engine) (id : Nat) (e' : Engine) (s : Settings)
+    (hs : e.settings = some s) (hq : e.highQ = []) (h : e.dequeue true = (e', some id)) (hp : isQos12Publish e id = true) :
+    e.pendingPub.length < s.receiveMaximum := by
+  unfold Engine.dequeue at h
+  split at h
+  · simp at h
+  · simp only [hq, Bool.not_true, Bool.false_eq_true, ↓reduceIte] at h
+    split at h
+    · simp at h
+    · have key : ∀ x, e.passesReceiveMaximum x = true → isQos12Publish e x = true → e.pendingPub.length < s.receiveMaximum := by
+        intro x hx hpx
+        simp only [Engine.passesReceiveMaximum, hs] at hx
+        by_cases hge : e.pendingPub.length ≥ s.receiveMaximum
+        · simp only [hge, ↓reduceIte] at hx
+          simp only [isQos12Publish] at hpx
+          cases hb : (e.op? x).bind (fun o => publishQos o.packet) with
+          | none => simp [hb] at hpx
+          | some q => simp [hb] at hx hpx; exact absurd hx hpx
+        · omega
+      cases hr : e.resubQ with
+      | cons x r =>
+        simp only [hr] at h
+        split at h
+        · rename_i hpass
+          simp only [Prod.mk.injEq, Option.some.injEq] at h
+          obtain ⟨_, rfl⟩ := h
+          exact key _ hpass hp
+        · simp at h
+      | nil =>
+        simp only [hr] at h
+        cases hu : e.userQ with
+        | cons x r =>
+          simp only [hu] at h
+          split at h
+          · rename_i hpass
+            simp only [Prod.mk.injEq, Option.some.injEq] at h
+            obtain ⟨_, rfl⟩ := h
+            exact key _ hpass hp
+          · simp at h
+        | nil => simp [hu] at h
+
+/-- **Slow start (one-at-a-time drain).**  While operations interrupted by the disconnection are unresolved
+    (`slowStartCount ≠ 0`) and something already awaits an acknowledgement, nothing further is taken from the
+    resubmit or user queues. -/
+theorem slow_start_holds_back (e : Engine) (hq : e.highQ = [])
+    (hth : e.slowStartThrottled = true) (hpend : e.hasPendingAck = true) : (e.dequeue true).2 = none := by
+  unfold Engine.dequeue
+  split
+  · rfl
+  · simp [hq, hth, hpend]
+
+/-- the throttle is in force exactly when the policy is configured, the connection is established and
+    interrupted operations remain -/
+theorem throttle_condition (e : Engine) :
+    e.slowStartThrottled = (e.cfg.drainOneAtATime && e.state == .connected && e.slowStartCount != 0) := rfl
+
+/-- the count of interrupted operations is initialised at CONNACK to the operations that were in flight -/
+theorem slow_start_initialised (e : Engine) (h : e.cfg.drainOneAtATime = true) :
+    e.initSlowStart.slowStartCount = (e.ops.map (fun x => x.2.slowStart)).sum := by
+  simp [Engine.initSlowStart, h]
+
+/-- nothing is sent while a write is pending (one batch at a time) -/
+theorem no_dequeue_while_write_pending (e : Engine) (all : Bool) (h : e.pendingWrite = true) : (e.dequeue all).2 = none := by
+  simp [Engine.dequeue, h]
+
 end GV.Props.C09
